@@ -60,7 +60,7 @@ QBREPS = ["belief", "belief_perm", "belief_support", "belief_perm"]
 # AlphaVectorPolicy._belief_to_vector reads the probabilities of a Belief tuple positionally (it ignores the
 # `states` field, unlike QMDPPolicy and next_agentstate): such tuples are only probed and counted for the
 # alpha-vector policy.  Set to True once msdm honours the field: they then join the judged representations.
-ALPHAVECTOR_HONOURS_BELIEF_STATES = False
+ALPHAVECTOR_HONOURS_BELIEF_STATES = True
 RARE_EPS = 1e-9      # probability of the rare transitions of the rare-transition family
 
 
